@@ -75,7 +75,7 @@ func init() {
 		// a terminal notification issued by the producer itself - from one of several goroutines, through
 		// every constructor flavour - must close the subscription and release the source once the call returned
 		Name:   "C03.term",
-		Props:  []string{"C03", "C13"},
+		Props:  []string{"C03", "C07", "C13"},
 		Weight: 2,
 		Gen: func(g *Gen) *Scn {
 			sc := &Scn{Family: "C03.term"}
@@ -129,6 +129,12 @@ func init() {
 			}
 			if s.Live != 0 || s.Teardowns != 1 {
 				e.Violate("C03", "source-not-released", fmt.Sprintf("the producer's terminal call returned but the source teardown ran %d times (live=%d, trace %s)", s.Teardowns, s.Live, rec.Trace()))
+			}
+			for _, c := range s.Calls {
+				if c.Step.K == "E" && c.Panic == nil && rec.Terminal() == 0 {
+					e.Violate("C07", "source-error-lost", fmt.Sprintf("the source's Error call returned (no terminal had been sent before) but the subscriber never received an Error (trace %s)", rec.Trace()))
+					break
+				}
 			}
 			if rec.Terminal() == 0 {
 				e.Violate("C03", "terminal-lost", fmt.Sprintf("the producer's terminal call returned but the observer never received a terminal notification (trace %s)", rec.Trace()))
